@@ -152,6 +152,10 @@ func c05queryOpts(q c05Query) []func(hrpc.Call) error {
 	}
 	if q.Opt.Timeline {
 		o = append(o, hrpc.Consistency(hrpc.TimelineConsistency))
+	} else if q.Opt.StoreOffset > 0 || q.Opt.Priority > 0 {
+		// the latest data demanded explicitly: the same query as without
+		// the option (never one that accepts a stale replica)
+		o = append(o, hrpc.Consistency(hrpc.StrongConsistency))
 	}
 	if q.Opt.Filter != "" {
 		o = append(o, hrpc.Filters(filter.NewPrefixFilter([]byte("pre"))))
